@@ -6,7 +6,7 @@ from .. import ief, triage
 from ..effects import Effects
 from ..flow import GuardMap, Walker, World
 from ..model import AnalysisError, norm
-from ..pyeval import Interp, Unsupported, SAFE_ATTR_CALLS
+from ..pyeval import Interp, Unsupported, SAFE_ATTR_CALLS, Obj, Raised, pure_os
 from .common import names_in, dep_closure
 
 ROOTS = ['gentest.gentest', 'gentest.gentest_wrapper']
@@ -26,6 +26,7 @@ def check(run):
     run.attempt(refmap, run, p)
     run.attempt(effects, run, p)
     run.attempt(mustemit, run, p, 'C11-MUSTEMIT')
+    run.attempt(refdir, run, p)
     run.attempt(joinrepr, run, p)
     run.attempt(attrs, run, p)
     run.attempt(snapshot, run, p)
@@ -527,6 +528,34 @@ def _stream_test_sites(p, ws, stream):
 
 
 # ---------------------------------------------------------------------------
+def refdir(run, p):
+    """two generated scripts in one directory never share a reference directory (generating the second would rewrite the first's
+    reference files): ref_subdir evaluated on script names that differ only after the test_ prefix"""
+    run.rule('C11-REFDIR', 'script names that differ map to different reference sub-directories: ref_subdir, evaluated on test_report.py, '
+                           'test__report.py, test___report.py, test_report_.py, test_a_b.py, test_a__b.py, gives six different names, so '
+                           'generating one test does not rewrite the reference files of another')
+    c = p.cls('TestGenerator')
+    f = c.methods.get('ref_subdir')
+    if f is None:
+        raise AnalysisError('TestGenerator.ref_subdir vanished')
+    import posixpath
+    names = ['test_report.py', 'test__report.py', 'test___report.py', 'test_report_.py', 'test_a_b.py', 'test_a__b.py']
+    got = {}
+    for nm in names:
+        o = Obj(c)
+        o.attrs.update(script='/w/job/' + nm, raw_script='/w/job/' + nm)
+        I = Interp(p)
+        I.extra_names['os'] = pure_os()
+        try:
+            got[nm] = I.call(f, [], selfobj=o)
+        except (Unsupported, Raised) as e:
+            raise AnalysisError('ref_subdir is not evaluable: %s' % e)
+    clash = [(a, b) for i, a in enumerate(names) for b in names[i + 1:] if got[a] == got[b]]
+    run.ob('C11-REFDIR', 'ref_subdir', not clash, 'reference sub-directories %s%s' % (
+        [got[n] for n in names], '' if not clash else ': %s and %s share %r' % (clash[0][0], clash[0][1], got[clash[0][0]])), fn=f)
+    run.floor('C11-REFDIR', len(names), 6)
+
+
 def joinrepr(run, p):
     run.rule('C11-JOINREPR', 'the path expression as_join_repr writes into the script denotes the original path when evaluated with '
                              'self.cwd / self.refdir set as the generated class sets them (evaluated on a grid of path/cwd shapes)')
